@@ -173,9 +173,13 @@ class Walker:
     """turns a parsed function into the nested IR: tuples ('Lock', m) ('Unlock', m) ('Work',) ('Call',)
     ('Other',) ('Inc',) ('Dec',) ('Post',) ('PostPrio',) ('IfWorker', a, b) ('Guard', a)"""
 
-    def __init__(self, fn, view='sync'):
+    def __init__(self, fn, view='sync', guards='keep'):
         self.fn = fn
         self.view = view        # which branch of `if (m_worker)` continues after the if: 'sync' = else, 'async' = then
+        # a conditional without else whose condition is unrelated to the protocol (e.g. `type == QtFatalMsg`):
+        # 'keep' -> ('Guard', body), the body must not change a locker; 'take' -> the body is inlined (the path on which
+        # the condition holds); 'skip' -> the path on which it does not hold
+        self.guards = guards
         self.lockers = {}       # name -> [mutex, locked]
 
     def simple(self, t):
@@ -220,8 +224,8 @@ class Walker:
             if len(args) == 3 and args[0] == 'm_worker':
                 return [('PostPrio',)]
             raise AnchorError('ANCHOR NOT FOUND: %s: unrecognised postEvent call `%s`' % (fn, t))
-        if t == 'flush()':
-            return [('Other',)]       # fatal path (C11); not part of the C02/C03 protocol
+        if t in ('flush()', 'this->flush()', 'SimplePipeline::flush()'):
+            return [('Flush',)]       # Sink::flush() of every sink (fatal path)
         if PROTO.search(t):
             raise AnchorError('ANCHOR NOT FOUND: %s: unrecognised statement touching the protocol: `%s`' % (fn, t[:120]))
         return [('Other',)]
@@ -250,7 +254,17 @@ class Walker:
                 b = self.block(st[3]) if st[3] is not None else []
                 after = {k2: v[1] for k2, v in self.lockers.items() if k2 in before}
                 is_worker_if = cond in ('m_worker', 'm_worker!=nullptr', 'm_worker!=NULL', 'nullptr!=m_worker',
-                                        '!m_worker', 'm_worker==nullptr', 'nullptr==m_worker')
+                                        '!m_worker', 'm_worker==nullptr', 'nullptr==m_worker',
+                                        'ownThreadIsRunning()', '!ownThreadIsRunning()')
+                take_guard = (not is_worker_if) and st[3] is None and self.guards in ('take', 'skip')
+                if take_guard:
+                    if self.guards == 'take':
+                        for k2 in before:
+                            self.lockers[k2][1] = mid[k2]
+                        out += a
+                    else:
+                        out.append(('Other',))
+                    continue
                 if is_worker_if:
                     # the view decides which branch is the one executed; the locker state follows that branch
                     then_is_worker = not (cond.startswith('!') or '==' in cond)
@@ -263,6 +277,10 @@ class Walker:
                     out.append(('IfWorker', a, b))
                 elif cond in ('!m_worker', 'm_worker==nullptr', 'nullptr==m_worker'):
                     out.append(('IfWorker', b, a))
+                elif cond == 'ownThreadIsRunning()':
+                    out.append(('IfRunning', a, b))
+                elif cond == '!ownThreadIsRunning()':
+                    out.append(('IfRunning', b, a))
                 elif 'm_worker' in cond or 'm_thread' in cond:
                     raise AnchorError('ANCHOR NOT FOUND: %s: unrecognised condition on the worker: `%s`' % (self.fn, st[1]))
                 elif st[3] is None:
@@ -278,25 +296,37 @@ class Walker:
         return out
 
 
-def walk(src, qualname, fn, view='sync'):
-    return Walker(fn, view).block(parse_function(src, qualname), top=True)
+def walk(src, qualname, fn, view='sync', guards='keep'):
+    return Walker(fn, view, guards).block(parse_function(src, qualname), top=True)
 
 
 def only_other(ir):
     return all(x[0] == 'Other' or (x[0] == 'Guard' and only_other(x[1])) for x in ir)
 
 
+def flush_when_running(ir):
+    """does some path with a RUNNING own thread reach flush()?  (C03: sinks are entered on the logger thread only)"""
+    for x in ir:
+        if x[0] == 'Flush':
+            return True
+        if x[0] == 'IfRunning' and flush_when_running(x[1]):
+            return True
+        if x[0] in ('Guard', 'IfWorker', 'Guard2') and any(flush_when_running(y) for y in x[1:]):
+            return True
+    return False
+
+
 def flatten_sync(ir, fn):
     """C02 view: synchronous mode (m_worker == nullptr), guards may only contain `Other`"""
     out = []
     for x in ir:
-        if x[0] == 'IfWorker':
+        if x[0] in ('IfWorker', 'IfRunning'):
             out += flatten_sync(x[2], fn)
         elif x[0] == 'Guard':
             if not only_other(x[1]):
                 raise AnchorError('ANCHOR NOT FOUND: %s: lock/pipeline operation under a condition' % fn)
             out.append(('Other',))
-        elif x[0] in ('Lock', 'Unlock', 'Work', 'Call', 'Other'):
+        elif x[0] in ('Lock', 'Unlock', 'Work', 'Call', 'Other', 'Flush'):
             out.append(x)
         else:
             raise AnchorError('ANCHOR NOT FOUND: %s: `%s` outside the asynchronous branch' % (fn, x[0]))
@@ -316,21 +346,27 @@ def generate():
     need(not re.search(r'\bbool\s+process\s*\(', lh), 'logger.h: Logger does not override process()')
     need(re.search(r'bool\s+process\s*\(\s*LogMessage\s*&\s*\w+\s*\)\s*override', oh), 'ownthreadhandler.h: process(LogMessage&) override')
     need(re.search(r'logger->processMessage\(type, context, message\)', lg), 'logger.cpp: messageHandler forwards to processMessage')
-    pm = flatten_sync(walk(lg, 'Logger::processMessage', 'Logger::processMessage'), 'Logger::processMessage')
+    pm = flatten_sync(walk(lg, 'Logger::processMessage', 'Logger::processMessage', guards='skip'), 'Logger::processMessage')
+    pmf = flatten_sync(walk(lg, 'Logger::processMessage', 'Logger::processMessage', guards='take'), 'Logger::processMessage')
     # the member function is defined inside the class template: anchor on its declaration line
     m = need(re.search(r'bool\s+process\s*\(\s*LogMessage\s*&', oh), 'OwnThreadHandler::process')
     hp_ir = Walker('OwnThreadHandler::process').block(parse_function(oh[m.start():], 'process'), top=True)
     hp = flatten_sync(hp_ir, 'OwnThreadHandler::process')
     need(all(x[0] != 'Call' for x in hp), 'OwnThreadHandler::process: no further virtual call')
-    need(sum(1 for x in pm if x[0] == 'Call') == 1, 'Logger::processMessage: exactly one call of process()')
+    need(sum(1 for x in pm if x[0] in ('Call', 'Work')) == 1, 'Logger::processMessage: exactly one pipeline run')
+    need(sum(1 for x in pmf if x[0] in ('Call', 'Work')) == 1, 'Logger::processMessage (fatal path): exactly one pipeline run')
     out = HDR % 'src/qtlogger/logger.cpp, ownthreadhandler.h'
     out += 'Require Import List.\nImport ListNotations.\nRequire Import QtlVerif.ConcDefs.\n'
     out += '(* Logger::processMessage; LCall = the virtual call process(lmsg) *)\n'
     out += 'Definition src_process_message : list linstr :=\n  [%s].\n' % '; '.join(
         'LCall' if x[0] == 'Call' else 'LI (%s)' % coq_instr(x) if x[0] in ('Lock', 'Unlock') else 'LI ' + coq_instr(x) for x in pm)
+    out += '(* the same on the path on which every protocol-unrelated condition holds (type == QtFatalMsg: flush()) *)\n'
+    out += 'Definition src_process_message_fatal : list linstr :=\n  [%s].\n' % '; '.join(
+        'LCall' if x[0] == 'Call' else 'LI (%s)' % coq_instr(x) if x[0] in ('Lock', 'Unlock') else 'LI ' + coq_instr(x) for x in pmf)
     out += '(* OwnThreadHandler<BaseHandler>::process with m_worker == nullptr (synchronous mode) *)\n'
     out += 'Definition src_handler_sync : list instr :=\n  [%s].\n' % '; '.join(coq_instr(x) for x in hp)
     out += '(* a logging call through an installed Logger; a call on a bare OwnThreadHandler<Pipeline> *)\n'
     out += 'Definition src_logger_sk : list instr := inline src_process_message src_handler_sync.\n'
+    out += 'Definition src_logger_fatal_sk : list instr := inline src_process_message_fatal src_handler_sync.\n'
     out += 'Definition src_handler_sk : list instr := src_handler_sync.\n'
     return {'SrcConc.v': out}
